@@ -250,7 +250,8 @@ def _run(case, rec, kind, legacy, body, commands, encode, header, heartbeat):
             return
         seen = boundary.props_values(c.value)
         try:
-            ref = refcodec.enc_header(case['size'], seen, case['ch'], legacy)
+            ref = refcodec.enc_header(case['size'], seen, case['ch'], legacy,
+                                      weight=wgt)
         except (refcodec.RefError, struct.error, TypeError) as e:
             rec.count('ref_refused')
             rec.note('reference refused what the library encoded: %r' % (e,))
@@ -343,7 +344,8 @@ def _run(case, rec, kind, legacy, body, commands, encode, header, heartbeat):
             return
         seen = boundary.props_values(g.properties)
         try:
-            ref = refcodec.enc_header(g.body_size, seen, u.value[1], legacy)
+            ref = refcodec.enc_header(g.body_size, seen, u.value[1], legacy,
+                                      weight=g.weight)
         except (refcodec.RefError, struct.error, TypeError):
             rec.count('ref_refused')
             return
